@@ -159,37 +159,35 @@ func runC10(c *Ctx) {
 
 	// ---- encoder ---------------------------------------------------------------------------------
 	var efs []cborField
-	for _, b := range enc.SSA.DomPreorder() {
-		for _, in := range b.Instrs {
-			ci, ok := in.(*ssa.Call)
-			if !ok {
-				continue
-			}
-			x := c.CallX(ci)
-			switch {
-			case nameMatches(x.Name, "cbor-gen.WriteCidBuf"):
-				efs = append(efs, cborField{path: fieldPath(x.Args[2], recv), kind: "cid", cap: -1, pos: ci.Pos()})
-			case nameMatches(x.Name, "cbor-gen.WriteMajorTypeHeaderBuf"):
-				maj, _ := constInt(x.Args[2])
-				ln := x.Args[3]
-				f := cborField{path: fieldPath(ln, recv), kind: itoa(int(maj)), cap: -1, pos: ci.Pos()}
-				// cap: dominating (len(X) > K) == false
-				for _, fct := range c.FactsAt(b) {
-					if fct.Val {
-						continue
-					}
-					if m, ok := Match(Op("binop", ">", Bind("l"), Bind("k")), fct.Cond); ok {
-						if fieldPath(m["l"], recv) == f.path {
-							if k, ok := constInt(m["k"]); ok {
-								f.cap = k
-							}
+	c.WalkInl(enc.SSA, 2, func(ev InlEvent) {
+		ci, ok := ev.In.(*ssa.Call)
+		if !ok {
+			return
+		}
+		x := subst(c.CallX(ci), ev.Env)
+		switch {
+		case nameMatches(x.Name, "cbor-gen.WriteCidBuf"):
+			efs = append(efs, cborField{path: fieldPath(x.Args[2], recv), kind: "cid", cap: -1, pos: ci.Pos()})
+		case nameMatches(x.Name, "cbor-gen.WriteMajorTypeHeaderBuf"):
+			maj, _ := constInt(x.Args[2])
+			ln := x.Args[3]
+			f := cborField{path: fieldPath(ln, recv), kind: itoa(int(maj)), cap: -1, pos: ci.Pos()}
+			// cap: dominating (len(X) > K) == false, in the function the header is written in
+			for _, fct := range c.FactsAt(ci.Block()) {
+				if fct.Val {
+					continue
+				}
+				if m, ok := Match(Op("binop", ">", Bind("l"), Bind("k")), subst(fct.Cond, ev.Env)); ok {
+					if fieldPath(m["l"], recv) == f.path {
+						if k, ok := constInt(m["k"]); ok {
+							f.cap = k
 						}
 					}
 				}
-				efs = append(efs, f)
 			}
+			efs = append(efs, f)
 		}
-	}
+	})
 	seq := func(fs []cborField) string {
 		var s []string
 		for _, f := range fs {
@@ -203,7 +201,8 @@ func runC10(c *Ctx) {
 	c.Check(seq(efs) == want, "C10.B2-field-sequence", "MarshalCBOR › expected wire layout", enc.SSA.Pos(), "layout is "+want, "wire layout changed from "+want+" to "+seq(efs)+" (incompatible with deployed peers)")
 	// the bytes written for each length-prefixed field are that field
 	nw := 0
-	for _, cs := range c.Calls(enc.SSA, Or(Invoke("io.Writer.Write"), Call("io.WriteString"))) {
+	for _, st := range c.CallsInl(enc.SSA, Or(Invoke("io.Writer.Write"), Call("io.WriteString")), 2) {
+		cs := st.CallSite
 		var data *X
 		if cs.X.Op == "invoke" {
 			data = cs.X.Args[1]
